@@ -250,6 +250,7 @@ def run(ctx: Ctx):
     _s6(ctx, rel)
     # ---- S8 statistics: an 'unknown' marker in a per-class table is absorbing ---------------------------------------
     _sticky_sentinels(ctx)
+    _report_counts_what_validation_accepts(ctx)
     plumbing(ctx, "S7")
     return dict(
         explanation=(
@@ -566,11 +567,58 @@ def _sticky_sentinels(ctx: Ctx):
     col.floor("sentinel_tables", nacc, 1)
 
 
+def _report_counts_what_validation_accepts(ctx: Ctx):
+    """S9: validation rejects a bounded reference token only when `end < start` (and accepts start == end, an empty
+    segment); the statistics report must therefore count a token as bounded under `end >= start >= 0`. A strict `end >
+    start` in the report turns every valid empty segment into 'boundaries unknown' (-1) for its whole token type."""
+    col, pkg = ctx.col, ctx.pkg
+    f = pkg.func("_datasets::_info_and_validate")
+    rel = f.module.relname
+    pm = parent_map(f.node)
+    rej = []
+    for n in own_nodes(f.node):
+        if isinstance(n, ast.If) and isinstance(n.test, ast.Compare) and len(n.test.ops) == 1 \
+                and isinstance(n.test.left, ast.Subscript) and isinstance(n.test.comparators[0], ast.Subscript) \
+                and u(n.test.left.value) == u(n.test.comparators[0].value) \
+                and all(isinstance(x, ast.Raise) for x in n.body):
+            li, ri = u(n.test.left.slice), u(n.test.comparators[0].slice)
+            op = type(n.test.ops[0])
+            # normalise to (end OP start)
+            if (li, ri) == ("2", "1"):
+                rej.append({ast.Lt: "end<start", ast.LtE: "end<=start"}.get(op))
+            elif (li, ri) == ("1", "2"):
+                rej.append({ast.Gt: "end<start", ast.GtE: "end<=start"}.get(op))
+    rej = [r for r in rej if r]
+    if len(rej) != 1:
+        raise AnalysisError(f"C12: expected one start/end order rejection in the validator, found {rej}")
+    # the report's loop: for tok, start, end in <rows>
+    acc = []
+    for n in own_nodes(f.node):
+        if isinstance(n, ast.For) and isinstance(n.target, ast.Tuple) and len(n.target.elts) == 3 and all(isinstance(e, ast.Name) for e in n.target.elts):
+            tok, st, en = (e.id for e in n.target.elts)
+            for c in ast.walk(n):
+                if isinstance(c, ast.Compare) and isinstance(c.left, ast.Name) and isinstance(c.comparators[0], ast.Name):
+                    a, b, op = c.left.id, c.comparators[0].id, type(c.ops[0])
+                    if (a, b) == (en, st):
+                        acc.append({ast.Gt: "end>start", ast.GtE: "end>=start"}.get(op))
+                    elif (a, b) == (st, en):
+                        acc.append({ast.Lt: "end>start", ast.LtE: "end>=start"}.get(op))
+    acc = [a for a in acc if a]
+    if len(acc) != 1:
+        raise AnalysisError(f"C12: expected one start/end comparison in the statistics loop, found {acc}")
+    want = "end>=start" if rej[0] == "end<start" else "end>start"
+    col.ob("G12", "S9", f"{rel}::_info_and_validate::report-counts-the-segments-validation-accepts", acc[0] == want,
+           f"validation rejects a bounded token only under `{rej[0]}` but the report counts it only under `{acc[0]}`: a valid "
+           f"{'empty segment (start == end)' if want == 'end>=start' else 'segment'} makes rcount_<i> -1 ('boundaries unknown') "
+           f"although every boundary is given", rel, f.line, sample=dict(validator_rejects=rej[0], report_counts=acc[0]))
+
+
 def _mutants():
     from selftest.mutate import Mutant as M
     D = "_datasets.py"
     return [
-        M("unknown-marker-not-sticky", "_datasets.py", "if rcount >= 0 and end > start >= 0:", "if end > start >= 0:", "unknown-marker-is-absorbing"),
+        M("report-drops-empty-segments", "_datasets.py", "if rcount >= 0 and end >= start >= 0:", "if rcount >= 0 and end > start >= 0:", "report-counts-the-segments-validation-accepts"),
+        M("unknown-marker-not-sticky", "_datasets.py", "if rcount >= 0 and end >= start >= 0:", "if end >= start >= 0:", "unknown-marker-is-absorbing"),
         M("repair-without-permission", D, "if fix is not None and T + fix >= ali.shape[0] > T:",
           "if T + fix >= ali.shape[0] > T:", "needs-fix-permission"),
         M("drop-else-raise", D,
